@@ -213,6 +213,13 @@ func reachesRoot(spec *Spec, id int) bool {
 // by end-of-stream" oracle to every observer (WriterFunc, Scan) of a
 // failure-free run, and cross-checks the root observer against the scan.
 func CheckObservers(spec *Spec, ref *Ref, env *Env, scanned []Row) error {
+	return CheckObserversOpt(spec, ref, env, scanned, true)
+}
+
+// CheckObserversOpt: with once == false a task may legitimately have been
+// evaluated more than once (an executor that re-runs tasks it believes lost):
+// every evaluation must then have seen the same rows, at least once.
+func CheckObserversOpt(spec *Spec, ref *Ref, env *Env, scanned []Row, once bool) error {
 	for id := range spec.Nodes {
 		n := &spec.Nodes[id]
 		if n.Op != "writerfunc" && n.Op != "scan" {
@@ -224,7 +231,7 @@ func CheckObservers(spec *Spec, ref *Ref, env *Env, scanned []Row) error {
 		st := ref.Stages[n.In[0]]
 		streams := env.StreamsOf(id)
 		weak := downstreamHead(spec, id)
-		uniq := uniquePath(spec, id)
+		uniq := once && uniquePath(spec, id)
 		byShard := make([][]*Stream, st.NShard)
 		for _, s := range streams {
 			if s.Shard < 0 || s.Shard >= st.NShard {
